@@ -7,6 +7,7 @@ import (
 
 	z "github.com/Oudwins/zog"
 	"github.com/Oudwins/zog/conf"
+	"github.com/Oudwins/zog/zconst"
 
 	"zogverif/internal/obs"
 	"zogverif/internal/rng"
@@ -589,6 +590,16 @@ func dModesAgreeMore() string {
 		return fmt.Sprintf("the same as a struct field: Validate leaves %+v, Parse leaves %+v", rv, rp)
 	}
 	saved := conf.IssueFormatter
+	// an application-wide language map whose text mentions the value: the same text in both modes
+	conf.IssueFormatter = conf.NewDefaultFormatter(zconst.LangMap{zconst.TypeString: {zconst.IssueCodeMin: "'{{value}}' is shorter than {{min}}", zconst.IssueCodeFallback: "invalid"}})
+	tv := "ab"
+	l1 := z.String().Min(5).Validate(&tv)
+	var td string
+	l2 := z.String().Min(5).Parse("ab", &td)
+	if len(l1) != 1 || len(l2) != 1 || l1[0].Message != l2[0].Message {
+		conf.IssueFormatter = saved
+		return fmt.Sprintf("String().Min(5) on \"ab\" under a language map whose min text is \"'{{value}}' is shorter than {{min}}\": Validate says %q, Parse says %q", z.Issues.SanitizeList(l1), z.Issues.SanitizeList(l2))
+	}
 	conf.IssueFormatter = func(e *z.ZogIssue, ctx z.Ctx) { e.SetMessage("app:" + e.Code) }
 	ps := "ab"
 	pp := &ps
